@@ -678,6 +678,18 @@ func (c *Ctx) unop(st *State, fr *Frame, x *ssa.UnOp) {
 				st.regs[x] = snap
 				return
 			}
+			// pointer to a non-struct value held as a first-class reference: its pointee lives in a per-type heap map
+			pt := deref(x.X.Type())
+			if so, ok := sortOf(pt); ok && so != SNone {
+				key := "D_" + shortTypeName(pt)
+				c.V.heapKeys[key] = heapKeyInfo{Owner: typeKey(pt), Field: "<pointee>", Sort: so}
+				c.derefCheck(st, fr, a, x.Pos(), "pointer")
+				h := c.heapCur(st, key, arrSort(so))
+				v := sel(h, a, so)
+				v.GoT = pt
+				st.regs[x] = v
+				return
+			}
 			unsupp("load through first-class pointer of type %s", x.X.Type())
 		default:
 			unsupp("load from %T", av)
@@ -1063,6 +1075,24 @@ func (c *Ctx) slice(st *State, fr *Frame, x *ssa.Slice) {
 					canon.GoT = x.Type()
 					st.assume(eq(canon, seq))
 					r = canon
+				}
+			}
+		}
+	}
+	if isArr && whole && fresh {
+		if p, ok := x.X.Type().Underlying().(*types.Pointer); ok {
+			if arr, ok := p.Elem().Underlying().(*types.Array); ok && arr.Len() >= 1 && arr.Len() <= 64 {
+				var elems []Term
+				for k := int64(0); k < arr.Len(); k++ {
+					e, ok := litElem(seq, fmt.Sprint(k))
+					if !ok {
+						elems = nil
+						break
+					}
+					elems = append(elems, e)
+				}
+				if elems != nil {
+					seqLit[r.S] = elems
 				}
 			}
 		}
